@@ -1871,6 +1871,11 @@ mod e2e {
     }
 
     fn build(z: &ZoneSpec) -> Option<Srv> {
+        build_with(z, &[]).map(|x| x.0)
+    }
+
+    /// `extra`: further records upserted before signing (the real DS of a signed child zone)
+    fn build_with(z: &ZoneSpec, extra: &[Record]) -> Option<(Srv, DNSKEY)> {
         let mut h = InMemoryZoneHandler::<TokioRuntimeProvider>::empty(
             z.apex.clone(),
             ZoneType::Primary,
@@ -1896,16 +1901,20 @@ mod e2e {
                 }
             }
         }
+        for r in extra {
+            h.upsert_mut(r.clone(), 0);
+        }
         let key = Ed25519SigningKey::from_pkcs8(&Ed25519SigningKey::generate_pkcs8().ok()?).ok()?;
         let public = key.to_public_key().ok()?;
         let key: Box<dyn SigningKey> = Box::new(key);
-        h.add_zone_signing_key_mut(DnssecSigner::new(DNSKEY::from_key(&public), key, z.apex.clone(), Duration::from_secs(86400))).ok()?;
+        let dnskey = DNSKEY::from_key(&public);
+        h.add_zone_signing_key_mut(DnssecSigner::new(dnskey.clone(), key, z.apex.clone(), Duration::from_secs(86400))).ok()?;
         h.secure_zone_mut().ok()?;
         let mut catalog = Catalog::new();
         catalog.upsert(z.apex.clone().into(), vec![Arc::new(h)]);
         let mut anchors = TrustAnchors::empty();
         anchors.insert(&public);
-        Some(Srv { catalog: Arc::new(catalog), anchors: Arc::new(anchors) })
+        Some((Srv { catalog: Arc::new(catalog), anchors: Arc::new(anchors) }, dnskey))
     }
 
     /// verdict class of the validator when the same upstream delivers negative responses as
@@ -2165,7 +2174,7 @@ mod e2e {
     //
     // Everything here goes through `DnssecDnsHandle::send` (hence `clone_with_context` and
     // `verify_response`) with NON-DEFAULT configuration or a hostile upstream; expectations by construction.
-    //   hl limits <soft|-> <hard|-> <iterations> <nested 0|1>   configured NSEC3 iteration limits must reach
+    //   hl limits <soft|-> <hard|-> <iterations> <0 top level | 1 nested no-DS proof | 2 signed child via DS chain>   configured NSEC3 iteration limits must reach
     //        verify_nsec3, at the top level and in the nested DS lookup for an insecure child zone
     //   hl config <anchors-wrong|anchors-default|cache1|ttl|depth0>   every other configurable field
     //   hl inject <forged+sibling|forged-alone|genuine-only>   an UNSIGNED NSEC3 next to a signed RRset of the same owner
@@ -2263,6 +2272,34 @@ mod e2e {
         let got = classify(&send_through(rt, &handle, &Name::from_ascii("x.c.z.").unwrap(), T_A, None));
         REF.with(|r| r.borrow_mut()[pos] = Some(got.clone()));
         Some(got)
+    }
+
+    /// `hl limits … 2`: a SIGNED child zone s.z. (NSEC3 with `iterations`) under the signed parent z. (3
+    /// iterations, real DS of the child key); the trust anchor is the parent key, so a negative answer of the child
+    /// is validated through DS + DNSKEY lookups in nested clones and its NSEC3 proof with the configured limits.
+    fn hl_limits_chain(rec: &mut Recorder, rt: &tokio::runtime::Runtime, soft: Option<u16>, hard: Option<u16>, iterations: u16) -> Option<()> {
+        let child_apex = Name::from_ascii("s.z.").unwrap();
+        let mut cz = ZoneSpec { apex: child_apex.clone(), names: BTreeMap::new(), salt: vec![0xcc], iterations, opt_out: false };
+        cz.names.insert(lbls(&child_apex), apex_types());
+        cz.names.insert(rel_name(&child_apex, &[b"a"]), [T_A].into_iter().collect());
+        let (child, child_key) = build_with(&cz, &[])?;
+        let digest = child_key.to_digest(&child_apex, DigestType::SHA256).ok()?;
+        let ds = DS::new(child_key.calculate_key_tag().ok()?, Algorithm::ED25519, DigestType::SHA256, digest.as_ref().to_vec());
+        let mut pz = hl_zone(3, false);
+        pz.names.insert(lbls(&child_apex), [T_NS, T_DS].into_iter().collect());
+        // the placeholder DS of `rdata_for` is replaced by the real one (same RRset key: upsert appends, so build without it)
+        pz.names.insert(lbls(&child_apex), [T_NS].into_iter().collect());
+        let (parent, _) = build_with(&pz, &[Record::from_rdata(child_apex.clone(), 300, RData::DNSSEC(DNSSECRData::DS(ds)))])?;
+        let mut inner = CatalogHandle::plain(parent.catalog.clone());
+        inner.child = Some((child_apex.clone(), child.catalog.clone()));
+        let handle = DnssecDnsHandle::with_trust_anchor(inner, parent.anchors.clone()).nsec3_iteration_limits(soft, hard);
+        let (es, eh) = (soft.unwrap_or(100), hard.unwrap_or(500));
+        let want = if iterations > eh { "err-nsec-bogus" } else if iterations > es { "err-nsec-insecure" } else { "ok-secure" };
+        for (q, t) in [("b.s.z.", T_A), ("a.s.z.", T_TXT)] {
+            let got = classify(&send_through(rt, &handle, &Name::from_ascii(q).unwrap(), t, None));
+            hl_record(rec, format!("hl limits {} {} {} 2", opt_tok(&soft), opt_tok(&hard), iterations), &got, got == want, format!("handle configured with nsec3_iteration_limits({soft:?}, {hard:?}), signed child zone s.z. with {iterations} NSEC3 iterations below the trust anchor z. (DS + DNSKEY chain), {q} type {t}: DnssecDnsHandle::send gives {got}, expected {want}"), "");
+        }
+        Some(())
     }
 
     fn hl_limits(rec: &mut Recorder, rt: &tokio::runtime::Runtime, soft: Option<u16>, hard: Option<u16>, iterations: u16, nested: bool) -> Option<()> {
@@ -2391,6 +2428,7 @@ mod e2e {
         let rt = tokio::runtime::Builder::new_current_thread().enable_all().build().ok()?;
         let optu = |x: &str| -> Option<Option<u16>> { if x == "-" { Some(None) } else { x.parse::<u16>().ok().map(Some) } };
         match *t.get(1)? {
+            "limits" if *t.get(5)? == "2" => hl_limits_chain(rec, &rt, optu(t.get(2)?)?, optu(t.get(3)?)?, t.get(4)?.parse().ok()?),
             "limits" => hl_limits(rec, &rt, optu(t.get(2)?)?, optu(t.get(3)?)?, t.get(4)?.parse().ok()?, *t.get(5)? == "1"),
             "config" => hl_config(rec, &rt, t.get(2)?),
             "inject" => hl_inject(rec, &rt, t.get(2)?),
@@ -2419,6 +2457,9 @@ mod e2e {
                 if hl_limits(rec, &rt, s_, h_, it, nested).is_none() {
                     rec.stat("hl.setup-failed");
                 }
+            }
+            if hl_limits_chain(rec, &rt, s_, h_, it).is_none() {
+                rec.stat("hl.setup-failed");
             }
         }
         for f in ["anchors-wrong", "anchors-default", "cache1", "ttl", "depth0"] {
